@@ -671,8 +671,9 @@ func runAdversaryCase(t *testing.T, c *advCase, proto bool, idx int) (what, clas
 			w.Quiesce()
 			if times > 1 {
 				// every copy may keep a handler busy until its time-out (10 s) - one after the other under the channel's
-				// mutex; the property speaks about the time AFTER the messages have been handled
-				w.Sleep(time.Duration(times) * 11 * time.Second)
+				// mutex (61 s per copy: also for time-outs that a change of the library makes longer); the property speaks about
+				// the time AFTER the messages have been handled
+				w.Sleep(time.Duration(times) * 61 * time.Second)
 			}
 			w.Sleep(500 * time.Millisecond)
 			// proposals and updates that reach the user's handlers are refused by the (honest) user
@@ -743,7 +744,7 @@ func runAdversaryCase(t *testing.T, c *advCase, proto bool, idx int) (what, clas
 		}
 		for _, cl := range c.Seq { // copies that waited for what the situation had left open are handled only now
 			if strings.HasSuffix(cl, "-x20") {
-				w.Sleep(20 * 11 * time.Second)
+				w.Sleep(20 * 61 * time.Second)
 			}
 		}
 		w.Bus.mu.Lock()
